@@ -436,6 +436,7 @@ class EvolveAppTask(BaseEvolutionTask):
 
         assert migration_executor is not None
 
+        full_migration_plan = []
         pre_migration_plan = None
         pre_migration_targets = None
         post_migration_plan = None
@@ -574,8 +575,14 @@ class EvolveAppTask(BaseEvolutionTask):
 
         # If we don't have anything to do, then all we'll need to set is
         # pre_migrate_state, since we'll still want it for signal emissions.
+        #
+        # The list of applied migrations is always needed as well, since
+        # evolutions may depend on migrations that were applied in the past
+        # (or are being marked as applied now), whether or not there are any
+        # migrations left to execute.
         result = {
             'pre_migrate_state': pre_migrate_state,
+            'to_mark_applied': migrations_to_mark_applied,
         }
 
         if not pre_migration_plan:
@@ -586,10 +593,12 @@ class EvolveAppTask(BaseEvolutionTask):
             post_migration_plan = None
             post_migration_targets = None
 
-        if pre_migration_plan or post_migration_plan:
+        if (pre_migration_plan or post_migration_plan or
+            extra_applied_migrations):
+            # Even if there's nothing left to execute, any migrations newly
+            # marked as applied still need to be recorded during execution.
             result.update({
                 'full_plan': full_migration_plan,
-                'to_mark_applied': migrations_to_mark_applied,
                 'post_plan': post_migration_plan,
                 'post_targets': post_migration_targets,
                 'pre_plan': pre_migration_plan,
